@@ -247,6 +247,12 @@ func (gm *gameMon) push(t *track, m ref.Move) bool {
 				if first {
 					c.Count("ev_insufficient_first", 1)
 				}
+				for _, pm := range t.g.Moves {
+					if pm.Kind == ref.KEnPassant {
+						c.Count("ev_insufficient_after_ep", 1)
+						break
+					}
+				}
 			}
 			if ev.Count >= 3 && first {
 				c.Count("ev_repetition_first", 1)
